@@ -12,3 +12,4 @@ CONSTANTS
   TopicNames = {"A", "B"}
   MaxOps = 5
   Warm = 254
+  ChurnAt = {1, 2, 3}
